@@ -90,7 +90,10 @@ def run_in_child(scenario, wall_s=None):
             os._exit(code)
     os.close(w)
     chunks = []
-    deadline = time.monotonic() + max(wall_cap, wall_s) * 1.5 + 15.0
+    # the parent's limit only has to catch what the in-process backstop cannot see (a loop inside C code). It is measured in
+    # wall time while the backstop counts CPU time per operation: on a loaded machine, or for a history of many operations,
+    # a limit close to the cap kills runs that are merely slow - so it is generous, and scales with the number of operations
+    deadline = time.monotonic() + max(wall_cap, wall_s) * 4.0 + 15.0 + 10.0 * len(scenario.get("ops") or [])
     killed = False
     while True:
         left = deadline - time.monotonic()
